@@ -101,6 +101,77 @@ def render(prog, ctx_report=None):
     return o
 
 
+_private = {}
+
+
+def private_registry(mode):
+    """one private ComponentRegistry per context behaviour (own tag Library in the engine builtins, own tag name: the package
+    refuses two registries with the same start tag), created once per process"""
+    if mode not in _private:
+        from django.template import Library
+        from django.template.engine import Engine
+        from django_components import ComponentFormatter, ComponentRegistry, RegistrySettings
+        lib = Library()
+        tag = "pcomp_" + mode[:3]
+        reg = ComponentRegistry(library=lib, settings=RegistrySettings(context_behavior=mode, tag_formatter=ComponentFormatter(tag)))
+        Engine.get_default().template_builtins.append(lib)
+        _private[mode] = (reg, tag)
+    return _private[mode]
+
+
+def render_private(prog):
+    """the same program with its components registered in a PRIVATE ComponentRegistry whose RegistrySettings.context_behavior is
+    the program's mode, while the GLOBAL COMPONENTS.context_behavior is the OPPOSITE mode: scoping must follow the behaviour
+    configured for the component's registry.  The templates use that registry's tag ({% pcomp_iso %} / {% pcomp_dja %})."""
+    import djsetup
+    from django.template import Context, Template
+    from django_components import Component
+    import django_components.cache as dc_cache
+    if not prog["lib"]:
+        return None
+    opposite = "django" if prog["mode"] == "isolated" else "isolated"
+    reg, tag = private_registry(prog["mode"])
+
+    def retag(src):
+        return src.replace("{% component ", "{%% %s " % tag).replace("{% endcomponent %}", "{%% end%s %%}" % tag)
+    _serial[0] += 1
+    with djsetup.components_settings(context_behavior=opposite):
+        try:
+            for cname, cd in prog["lib"]:
+                cls = type("GenP_%s" % cname, (Component,), {"template": retag(G.d_tpls(cd["tpl"])),
+                                                            "get_context_data": R.make_get_context_data(cd["data"]),
+                                                            "__module__": "verif_c03_private_%d" % _serial[0]})
+                reg.register(cname, cls)
+            src = retag(G.d_tpls(prog["page"]))
+            return R.outcome_of(lambda: Template(src).render(Context(dict(prog["ctx"]))))
+        finally:
+            for cname in list(reg.all()):
+                reg.unregister(cname)
+
+
+_serial = [0]
+
+
+def private_registry_oracle(chk, prog, o):
+    """direct oracle: the outcome must not depend on WHERE the context behaviour is configured"""
+    op = render_private(prog)
+    if op == ("err", "other:Timeout"):
+        _limit[0] = 20.0
+        try:
+            op = render_private(prog)
+        finally:
+            _limit[0] = 4.0
+    if op is None:
+        return
+    chk.count(("private", json.dumps(prog, sort_keys=True)), "fill" in G.features(prog) and "comp-nested" in G.features(prog), kind="%s/private-registry" % prog["mode"])
+    if op != o and not (op[0] == "err" and o[0] == "err" and not op[1].startswith("other:") and not o[1].startswith("other:")):
+        trig = "c03-%s-registry-context-behavior-not-followed" % prog["mode"]
+        chk.dist["differs:" + trig] += 1
+        chk.fail(trig, "components registered in a private ComponentRegistry with context_behavior=%s (global setting: the other mode) render "
+                       "differently from the same program under the global setting %s" % (prog["mode"], prog["mode"]),
+                 {"program": prog, "private_registry": op, "global_setting": o, **describe(prog)})
+
+
 def same_outcome(o, ref):
     """implementation outcome vs reference outcome, errors compared as 'raises' (classes are C01's subject)"""
     if o[0] == "ok" or ref[0] == "ok":
@@ -144,6 +215,8 @@ def evaluate(chk, cases, tag):
             break       # the tree under test hangs on many programs: reported once (below), do not spend the budget on it
         rep = []
         o = render(prog, ctx_report=rep)
+        if len(rows) % 3 == 0 and _hangs[0] < 8 and not (o[0] == "err" and o[1].startswith("other:")):
+            private_registry_oracle(chk, prog, o)
         if o == ("err", "other:Timeout"):
             _hangs[0] += 1
             if _hangs[0] == 8:
@@ -321,6 +394,9 @@ def noninterference(chk, mode, bases, reported):
         q = p if mode == "isolated" else set_only(p)
         a, b = U.ni_variant(q, "A"), U.ni_variant(q, "B")
         oa, ob = render(a), render(b)
+        if n % 3 == 0 and not any(x[0] == "err" and x[1].startswith("other:") for x in (oa, ob)):
+            private_registry_oracle(chk, a, oa)
+            private_registry_oracle(chk, b, ob)
         n += 1
         chk.count(("ni", json.dumps(a, sort_keys=True)), "fill" in G.features(a) and "comp-nested" in G.features(a), kind="%s/ni-pair" % mode)
         if oa != ob:
